@@ -321,6 +321,9 @@ func (x *Exec) applyContract(s *State, con *Contract, names []string, args []Val
 			for _, c := range con.Ensures {
 				post.assumeClause(c)
 			}
+			for _, c := range con.Assumed {
+				post.assumeClause(c)
+			}
 		}
 	}()
 	return rv
